@@ -366,15 +366,57 @@ def run_batch(runfn, prop, seed, nruns, workers, wall_cap=None, progress=False):
     return ordered, cut
 
 
-def confirm(runfn, prop, r):
-    """Re-run a violating tape in a forked pristine child.  Returns the list of
-    violation dicts that reproduce in isolation (same class)."""
-    iso = run_isolated(runfn, prop, values=r["tape"])
-    if iso.get("status") != "ok":
-        return None, iso
-    want = {vclass(v) for v in r.get("violations", [])}
-    got = [v for v in iso.get("violations", []) if vclass(v) in want]
-    return got, iso
+def run_fresh(prop, tape_values, seed, keep_events=False, timeout=600):
+    """Execute a tape in-process in a *fresh interpreter* (./check PROP --run-tape FILE).  This is the reference
+    notion of "a pristine process": confirmation of batch candidates, the final verification of a minimised tape
+    and --replay all go through this one path, so a replay reproduces exactly what was confirmed - also for
+    violations that depend on CPython recycling object ids (allocator state)."""
+    import subprocess
+    import tempfile
+
+    fd, path = tempfile.mkstemp(prefix="tvsim-tape-", suffix=".json")
+    try:
+        with os.fdopen(fd, "w") as f:
+            json.dump({"tape": list(tape_values), "keep_events": bool(keep_events)}, f)
+        env = dict(os.environ, VERIF_SEED=str(seed), TVSIM_NO_REEXEC="1")
+        p = subprocess.run([os.path.join(VERIF_DIR, "check"), prop, "--run-tape", path], env=env,
+                           capture_output=True, text=True, timeout=timeout)
+        try:
+            return json.loads(p.stdout.strip().splitlines()[-1])
+        except Exception:
+            return {"status": "crash", "err": "fresh interpreter gave no result: " + (p.stderr or p.stdout)[-800:],
+                    "violations": []}
+    finally:
+        try:
+            os.unlink(path)
+        except OSError:
+            pass
+
+
+def confirm_candidates(prop, seed, cands, want_classes, jobs=8, budget_s=120.0):
+    """cands: list of (run, result-with-tape).  Returns {class: (run, tape, fresh_result)} for every class of
+    `want_classes` (or any class of `prop` when want_classes is None) that reproduces in a fresh interpreter."""
+    from concurrent.futures import ThreadPoolExecutor
+
+    found = {}
+    t0 = time.monotonic()
+
+    def one(c):
+        if time.monotonic() - t0 > budget_s:
+            return c, None
+        return c, run_fresh(prop, c[1]["tape"], seed)
+
+    with ThreadPoolExecutor(jobs) as ex:
+        for c, res in ex.map(one, cands):
+            if not res or res.get("status") != "ok":
+                continue
+            for v in res.get("violations", []):
+                k = vclass(v)
+                if v["property"] != prop or (want_classes is not None and k not in want_classes):
+                    continue
+                if k not in found:
+                    found[k] = (c[0], c[1]["tape"], res)
+    return found
 
 
 # --------------------------------------------------------------------------
@@ -487,8 +529,9 @@ def minimise(runfn, prop, tape_values, target, budget_s=30.0, max_cand=400):
     return best
 
 
-def write_replay(prop, seed, run, runfn, tape_values, target):
-    r = run_isolated(runfn, prop, values=tape_values, keep_events=True)
+def write_replay(prop, seed, run, tape_values, target, fresh_result=None):
+    r = fresh_result if fresh_result is not None and "events" in fresh_result else \
+        run_fresh(prop, tape_values, seed, keep_events=True)
     v = next((x for x in r.get("violations", []) if vclass(x) == target), None)
     d = os.path.join(OUT_DIR, "replays")
     os.makedirs(d, exist_ok=True)
@@ -506,6 +549,7 @@ def write_replay(prop, seed, run, runfn, tape_values, target):
         "events": r.get("events"),
         "digest": r.get("digest"),
         "expect": {"clause": target[1], "cls": target[2], "message": v["msg"] if v else None},
+        "how_to_replay": f"VERIF_SEED={seed} ./check {prop} --replay <this file>   (fresh interpreter, tape executed in-process)",
     }
     with open(path, "w") as f:
         json.dump(doc, f, indent=1, default=str)
@@ -513,12 +557,12 @@ def write_replay(prop, seed, run, runfn, tape_values, target):
 
 
 def replay_file(runfn, prop, path):
-    """Re-execute a replay file; returns (exit_code, text)."""
+    """Re-execute a replay file in this (fresh) interpreter; returns (exit_code, text)."""
     with open(path) as f:
         doc = json.load(f)
     if doc["property"] != prop:
         return 2, f"replay file is for {doc['property']}, not {prop}"
-    r = run_isolated(runfn, prop, values=doc["tape"], keep_events=True)
+    r = run_inproc(runfn, prop, values=doc["tape"], keep_events=True)
     if r.get("status") != "ok":
         return 2, f"harness error during replay: {r.get('err')}"
     target = (doc["property"], doc["expect"]["clause"], doc["expect"]["cls"])
@@ -535,7 +579,7 @@ def replay_file(runfn, prop, path):
     if hit:
         return 1, (
             f"VIOLATION property={prop} replay={path}\nreproduced clause={target[1]}, but the event-log digest differs "
-            f"from the recorded one (the tree under test changed since recording)\n" + "\n".join(lines)
+            f"from the recorded one (the tree under test changed since recording, or the violation depends on allocator state such as recycled object ids)\n" + "\n".join(lines)
         )
     if not r["violations"]:
         return 0, f"replay of {path}: no violation on this tree (digest {'same' if same_digest else 'differs'})"
